@@ -19,7 +19,9 @@ from ..values import NAME_CLASSES, random_name
 PROP = "C07"
 LEVEL = "exploration"
 RULE = ("complete product emission site x name class x dialect (30 name classes: reserved words, spaces, mixed case, dots, the "
-        "three quote characters singly and doubled, backslash, comment openers, placeholders, Unicode) plus seeded random names; "
+        "three quote characters singly and doubled, backslash, comment openers, placeholders, Unicode) plus names of 1-3 characters and of 31/64/200 characters, plus seeded random names; sites include the Tables()/Query.Tables() "
+        "factories, Schema/Database attribute chains, item access, Index/Column objects and every DDL builder; each statement is also "
+        "rendered with str() (no context) and must come out the same; "
         "non-trivial = the name is not a plain lower-case identifier; distinct = (site, dialect, name)")
 ASSUMPTIONS = [
     "identifier lexing per dialect: \"..\" with \"\" escape (SQLite, PostgreSQL, SQL Server with QUOTED_IDENTIFIER ON, Oracle), "
